@@ -506,11 +506,11 @@ impl MDL {
         for i in 0..model.header.lod_count {
             let mut parts = vec![];
 
-            for j in model.lods[i as usize].mesh_index
-                ..model.lods[i as usize].mesh_index + model.lods[i as usize].mesh_count
-            {
-                let declaration = &model.header.vertex_declarations[j as usize];
-                let vertex_count = model.meshes[j as usize].vertex_count;
+            // the header may name more levels of detail, meshes or declarations than are stored
+            let lod = model.lods.get(i as usize)?;
+            for j in lod.mesh_index..lod.mesh_index.checked_add(lod.mesh_count)? {
+                let declaration = model.header.vertex_declarations.get(j as usize)?;
+                let vertex_count = model.meshes.get(j as usize)?.vertex_count;
                 let material_index = model.meshes[j as usize].material_index;
 
                 let mut vertices: Vec<Vertex> = vec![Vertex::default(); vertex_count as usize];
